@@ -1,4 +1,7 @@
 import MosnVerif.Lemmas.BoltSpec
+import MosnVerif.Lemmas.Dubbo
+import MosnVerif.Lemmas.DubboThrift
+import MosnVerif.Lemmas.Tars
 /-!
 # C01 — forwarding fidelity (property theorems only)
 
@@ -189,5 +192,134 @@ example : encode exHeartbeat = some [1, 1, 0, 0, 1, 0, 0, 0, 5, 1, 255, 255, 255
 -- a non-representable modification exists (so `bolt_slow_refuses` is not vacuous): a 65536-byte class
 example : Ref.representable { exHeartbeat with cls := List.replicate 65536 0, hdrChanged := true } = false := by
   simp only [Ref.representable, List.length_replicate]; decide
+
+/-! ## dubbo: 8-byte id at offset 4 -/
+
+/-- **dubbo_fast_identity**: for every hessian-parsing verdict `svcOK`, whenever `Decode` returns a frame the frame
+forwarded after `SetRequestId i` is the received frame `b.take n` (`n = 16 + dataLen`) with the 8 bytes at `IdIdx = 4`
+overwritten by `i`; nothing of the read buffer beyond `b.take n` is used. -/
+theorem dubbo_fast_identity (svcOK : Bytes → Bool) (b : Bytes) (f : Dubbo.Frame) (n i : Nat)
+    (h : Dubbo.decode svcOK b = .frame f n) :
+    Dubbo.encode (Dubbo.setId f i) = patch (b.take n) Gen.C01Dubbo.IdIdx (be Gen.C01Dubbo.IdLen i) ∧
+    n = Gen.C01Dubbo.HeaderLen + f.dataLen ∧ Gen.C01Dubbo.IdIdx + Gen.C01Dubbo.IdLen ≤ n ∧ n ≤ b.length := by
+  obtain ⟨hn, hle, h16, _, hdl, _⟩ := Dubbo.decode_frame h
+  refine ⟨Dubbo.encode_fast h i, ?_, ?_, hle⟩
+  · rw [hdl, hn]; rfl
+  · show 4 + 8 ≤ n; omega
+
+/-- **dubbo_body_roundtrip**: after `SetData d` (body < 4 GiB) on a decoded frame, the re-encoded frame decodes —
+consuming everything — to the same magic / flag / status, the new id, `DataLen = |d|` and payload `d`. -/
+theorem dubbo_body_roundtrip (svcOK svcOK' : Bytes → Bool) (b : Bytes) (f : Dubbo.Frame) (n : Nat)
+    (h : Dubbo.decode svcOK b = .frame f n) (d : Bytes) (i : Nat) (hd : 16 + d.length < 4294967296)
+    (hsvc : (!Dubbo.isEvent f.flag && Dubbo.isRequest f.flag) = true → svcOK' d = true) :
+    let out := Dubbo.encode (Dubbo.setId (Dubbo.setData f d) i)
+    Dubbo.decode svcOK' out =
+      .frame { f with id := i % 2 ^ 64, dataLen := d.length, payload := d, raw := some out } out.length :=
+  Dubbo.setData_roundtrip h d i hd hsvc
+
+/-- **dubbo_spec_holds_on_model_partial**: the model satisfies the reference predicate for untouched frames and for
+frames whose body was replaced.  Full statement (also for `Set`/`Del` on the header map: `Encode` must refuse) is
+false of the code — see KNOWN_FINDINGS and the witness below. -/
+theorem dubbo_spec_holds_on_model_partial (ok : Bool) (inp : Bytes) (body : Option Bytes) (id : Nat)
+    (hbody : ∀ d, body = some d → 16 + d.length < 4294967296) :
+    (∀ f n, Dubbo.decode (fun _ => ok) inp = .frame f n →
+      EnvelopeRef.Dubbo.holds inp ok { hdrOps := false, body := body } id true n
+        (some (Dubbo.encode (Dubbo.setId (Dubbo.withBody f body) id))) = true) ∧
+    ((∀ f n, Dubbo.decode (fun _ => ok) inp ≠ .frame f n) →
+      ∀ m acc k out, EnvelopeRef.Dubbo.holds inp ok m id acc k out = true) :=
+  ⟨fun f n h => Dubbo.holds_frame ok inp body id hbody f n h, fun h m acc k out => Dubbo.holds_noframe ok inp m id h acc k out⟩
+
+/-- a dubbo heartbeat event (flag 0xe2), id 7, two payload bytes -/
+def exDubbo : Bytes := [0xda, 0xbb, 0xe2, 0, 0, 0, 0, 0, 0, 0, 0, 7, 0, 0, 0, 2, 0x4e, 0x4e]
+
+example : (match Dubbo.decode (fun _ => false) (exDubbo ++ [1, 2, 3]) with
+    | .frame f n => n == 18 && f.id == 7 && f.payload == [0x4e, 0x4e] &&
+        Dubbo.encode (Dubbo.setId f 0x0102030405060708) == exDubbo.take 4 ++ [1, 2, 3, 4, 5, 6, 7, 8] ++ exDubbo.drop 12
+    | _ => false) = true := by decide
+
+-- negation witness of the unrestricted statement: a header-map change is forwarded silently, the reference wants a refusal
+example : EnvelopeRef.Dubbo.holds exDubbo true { hdrOps := true } 7 true 18 (some exDubbo) = false := by decide
+
+/-! ## dubbo-thrift: 8-byte id at `4 + headerLength - 8` -/
+
+/-- **thrift_fast_identity**: for every verdict of thrift's message parser, whenever `Decode` returns a frame whose
+announced header length is ≥ 4, the forwarded frame is `b.take n` with 8 bytes overwritten at
+`MessageLenSize + HeaderLength − IdLen`; when the announced header length is the true one (`21 + |service|`) that
+window is exactly the request-id field `Decode` read. (Announced header length < 4: the uint16 index wraps — see
+`DubboThrift.encode`; such frames are not well-formed.) -/
+theorem thrift_fast_identity (msgOK : Bytes → Bool) (b : Bytes) (f : DubboThrift.Frame) (n i : Nat)
+    (h : DubboThrift.decode msgOK b = .frame f n) (h4 : 4 ≤ f.headerLength) :
+    DubboThrift.encode (DubboThrift.setId f i) = .ok (patch (b.take n) (f.headerLength - 4) (be 8 i)) ∧
+    f.headerLength - 4 + 8 ≤ n ∧ n ≤ b.length ∧
+    (f.headerLength = 21 + f.svc.length →
+      f.headerLength - 4 = 17 + f.svc.length ∧ getBE (b.take n) (17 + f.svc.length) (17 + f.svc.length + 8) = f.id) := by
+  obtain ⟨he, hle⟩ := DubboThrift.encode_fast h i h4
+  exact ⟨he, hle, (DubboThrift.decode_frame h).n_le, fun ht => DubboThrift.id_window h ht⟩
+
+/-- **thrift_slow_parse**: the frame rebuilt by the slow path (reply / hijack, or after `SetData` with a new buffer) is
+well-formed for the reference: both length fields and the header length are consistent, and it carries the service
+name, id and payload it was built from. -/
+theorem thrift_slow_parse (f : DubboThrift.Frame) (hs : f.svc.length ≤ 65514) (hid : f.id < 18446744073709551616)
+    (htot : 25 + f.svc.length + f.payload.length < 4294967296) :
+    EnvelopeRef.Thrift.parse (DubboThrift.encodeSlow f) = some
+      { total := (DubboThrift.encodeSlow f).length, svc := f.svc, idPos := 17 + f.svc.length, id := f.id, payload := f.payload } :=
+  DubboThrift.parse_encodeSlow f hs hid htot
+
+/-- **thrift_spec_holds_on_model_partial** (header-map operations excluded: finding). -/
+theorem thrift_spec_holds_on_model_partial (ok : Bool) (inp : Bytes) (body : Option Bytes) (id : Nat) :
+    (∀ f n, DubboThrift.decode (fun _ => ok) inp = .frame f n →
+      (∀ d, body = some d → 25 + f.svc.length + d.length < 4294967296) →
+      match DubboThrift.encode (DubboThrift.setId (DubboThrift.withBody f body) id) with
+      | .ok o => EnvelopeRef.Thrift.holds inp ok { hdrOps := false, body := body } id true n (some o) = true
+      | .panic => EnvelopeRef.Thrift.parse inp = none) ∧
+    ((∀ f n, DubboThrift.decode (fun _ => true) inp ≠ .frame f n) →
+      ∀ m acc k out, EnvelopeRef.Thrift.holds inp ok m id acc k out = true) :=
+  ⟨fun f n h hb => DubboThrift.holds_frame ok inp body id f n h hb,
+   fun h m acc k out => DubboThrift.holds_noframe inp m id h ok acc k out⟩
+
+/-- service "ab", id 9, strict thrift message `m` call seq 5 -/
+def exThrift : Bytes :=
+  [0, 0, 0, 37, 0xda, 0xbc, 0, 0, 0, 37, 0, 23, 1, 0, 0, 0, 2, 0x61, 0x62, 0, 0, 0, 0, 0, 0, 0, 9,
+   0x80, 1, 0, 1, 0, 0, 0, 1, 0x6d, 0, 0, 0, 5, 0]
+
+example : (match DubboThrift.decode (fun _ => true) exThrift with
+    | .frame f n => n == 41 && f.headerLength == 23 && f.svc == [0x61, 0x62] && f.id == 9 &&
+        DubboThrift.encode (DubboThrift.setId f 0x0102030405060708)
+          == .ok (exThrift.take 19 ++ [1, 2, 3, 4, 5, 6, 7, 8] ++ exThrift.drop 27)
+    | _ => false) = true := by decide
+
+/-! ## tars: no fast path — re-serialisation through TarsGo -/
+
+/-- the request id is the only field of the written packet that depends on the id the stream layer sets; the length
+prefix is the total length (itself included). -/
+theorem tars_encode_shape (p : Tars.Req) (id : Nat) :
+    Tars.encodeReq p id = Tars.envelope (Tars.reqPre p ++ Tars.wInt32 (Tars.idOf id) 4 ++ Tars.reqPost p) ∧
+    (4 + (Tars.wReq { p with iRequestId := Tars.idOf id }).length < 4294967296 →
+      getBE (Tars.encodeReq p id) 0 4 = (Tars.encodeReq p id).length) :=
+  ⟨rfl, fun h => Tars.envelope_prefix _ h⟩
+
+/-- **tars_canonical_fidelity_partial**: if the received frame is in TarsGo's canonical form with its map entries in
+the order Go iterates them when writing (`p.context`, `p.status`), the frame `Encode` writes is the received frame with only
+the request-id field re-encoded and the length prefix adjusted (what the reference `splice` computes), whatever follows
+it in the buffer.  Full statement (any valid tars packet, any map order) is false of the code — tars has no raw-frame
+fast path: see KNOWN_FINDINGS. -/
+theorem tars_canonical_fidelity_partial (p : Tars.Req) (q : Tars.Resp) (rest : Bytes) (id : Nat)
+    (hp : 4 + (Tars.wReq p).length ≤ 10485760) (hq : 4 + (Tars.wResp q).length ≤ 10485760) :
+    EnvelopeRef.Tars.splice (Tars.envelope (Tars.wReq p) ++ rest) true id = some (Tars.encodeReq p id) ∧
+    EnvelopeRef.Tars.splice (Tars.envelope (Tars.wResp q) ++ rest) false id = some (Tars.encodeResp q id) :=
+  ⟨Tars.splice_req p rest id hp, Tars.splice_resp q rest id hq⟩
+
+def exTarsReq : Tars.Req :=
+  { iVersion := 1, cPacketType := 0, iMessageType := 0, iRequestId := 300, sServantName := [0x61], sFuncName := [0x66],
+    sBuffer := [9, 9], iTimeout := 3000, context := [([0x6b], [0x76])], status := [] }
+
+example : Tars.envelope (Tars.wReq exTarsReq) =
+    [0, 0, 0, 37, 0x10, 1, 0x2c, 0x3c, 0x41, 1, 0x2c, 0x56, 1, 0x61, 0x66, 1, 0x66, 0x7d, 0, 0, 2, 9, 9,
+     0x81, 0x0b, 0xb8, 0x98, 0, 1, 0x06, 1, 0x6b, 0x16, 1, 0x76, 0xa8, 0x0c] := by decide
+-- forwarding with id 70000 widens the id field from SHORT to INT: the frame grows by 2 bytes and the prefix follows
+example : (Tars.encodeReq exTarsReq 70000).take 14 = [0, 0, 0, 39, 0x10, 1, 0x2c, 0x3c, 0x42, 0, 1, 0x11, 0x70, 0x56] := by decide
+-- negation witness: two context entries written in the other order are not what `splice` demands
+example : EnvelopeRef.Tars.splice (Tars.envelope (Tars.wReq { exTarsReq with context := [([1], [2]), ([3], [4])] })) true 5
+    ≠ some (Tars.encodeReq { exTarsReq with context := [([3], [4]), ([1], [2])] } 5) := by decide
 
 end MosnVerif.Props.C01
